@@ -85,7 +85,7 @@ class Gen:
         r = self.r
         ps = r.choice(PAGE_SIZES)
         nt = r.choice([0, 1, 1, 2, 2, 3, 4])
-        fs = r.choice(["-", "-", "u", "u", "u", "s", "x", "su", "us", "xu", "ux", "sxu", "uu", "xsu", "usx",
+        fs = r.choice(["-", "-", "u", "u", "u", "s", "x", "su", "us", "xu", "ux", "sxu", "uu", "xsu", "usx", "uxs", "usu", "auxs",
                        "a", "b", "au", "au", "abu", "abu", "bau", "aus", "sau", "xabu", "ua", "ab", "asb", "abus"])
         # two nested simplifiers: the model's inner simplifier replenishes one pull ahead of the code, which only
         # EchoTranslation's test of "menu still empty" can observe - keep the echo translation out of these chains
@@ -244,8 +244,8 @@ def run_unit(ctx, rmodel, exe, ncases):
             nontrivial.add(case)
         bad = oracle_unit(case, ops, il)
         obs, full, nd = parse_obs(il)
-        if fs.endswith("u") or fs.endswith("us"):
-            # the two proved orders: [...; uniquifier] and [...; uniquifier; single_char_filter]
+        if re.search(r"u[usx]*$", fs):
+            # C04_uniq_anywhere: a uniquifier after which no filter creates texts (only u/s/x follow)
             stats["with_uniquifier_last" if fs.endswith("u") else "with_uniquifier_then_single_char"] += 1
             stats["dup_free_checked"] += 1
             if nd is False:
@@ -265,6 +265,13 @@ def run_unit(ctx, rmodel, exe, ncases):
         if a_ != b_:
             mism.append((case, il, ml))
     stats["mismatch"] = len(mism)
+    # replay of C04_uniq_before_simplifier_refuted on the real code: a text-creating filter AFTER the uniquifier is
+    # outside the theorem's condition (and no stock schema orders its filters so); informational, never a violation
+    wit = "5 1 F 2 19969:1:0:0:1:3 19968:2:0:0:1:2 ua 1 i 0 5\n"
+    _, wi, _ = vlib.sh2([exe, "unit", work], stdin=wit, timeout=300, env={"ASAN_OPTIONS": "detect_leaks=0:abort_on_error=0"})
+    _, wm, _ = vlib.sh2([rmodel], stdin=wit, timeout=60)
+    stats["refutation_replay"] = {"case": wit.strip(), "impl": wi.strip(), "model": wm.strip(),
+                                  "impl_shows_duplicate": wi.strip().endswith("ND 0"), "agree": wi.split() == wm.split()}
     if mism:
         case, il, ml = mism[0]
         ctx.violation("correspondence:c04-unit", "model and real Menu/API disagree on a generated case",
@@ -605,15 +612,21 @@ MANIFEST = {
             "(last_page_exact, wf_reachable); the iterator enumerates full_list from any offset (iterator_agrees); every report of "
             "any call sequence shows full_list's text at its index and two reports of an index agree (order_independent, "
             "reports_stable); NoDup of the texts with the uniquifier last and with the uniquifier followed by single_char_filter "
-            "(uniq_no_dup, uniq_then_single_char_no_dup).  Every run diffs the extracted model against real rime::Menu objects over "
+            "(uniq_no_dup, uniq_then_single_char_no_dup) and in general for any chain with a uniquifier after which no filter "
+            "creates new texts (uniq_anywhere; the condition is needed: uniq_before_simplifier_refuted).  The simplifier is an "
+            "oracle filter: each instance carries its own candidate -> non-empty list function (luna_pinyin_chain_no_dup, "
+            "cangjie5_chain_no_dup).  Every run diffs the extracted model against real rime::Menu objects over "
             "real translation/filter classes injected into a real session (so the real API functions and Selector do the arithmetic) "
             "on generated cases, and evaluates the property's own oracle (page view vs iterator of a fresh session, last-page flag, "
             "stability, duplicate texts) on luna_pinyin and cangjie5 of data/minimal.",
     "note": "Print Assumptions: all theorems closed under the global context (no axioms). Trusted: Coq kernel (vm_compute only in the "
             "examples), ExtrOcamlBasic extraction + OCaml/C++ glue, the harness. Peek is modelled as pure (CacheTranslation's memo), "
             "quality as an integer, text as code points; loops use explicit fuel (rem/height) whose sufficiency is validated by the "
-            "correspondence, the theorems hold for every fuel. Not modelled: simplifier/OpenCC, reverse-lookup and schema-list "
-            "Compare overrides, lua/other filters (covered only black-box at API level). The general 'any chain containing the "
-            "uniquifier' statement is kept as C04_uniq_anywhere_full (Definition); proved for the two orders the stock schemas use. "
+            "correspondence, the theorems hold for every fuel. The simplifier's queue is kept replenished (Peek stays pure): exact for one "
+            "simplifier level; with two nested simplifiers the inner one pulls one candidate early, observable only by "
+            "EchoTranslation's 'menu still empty' test and by the moment a uniquifier BELOW a simplifier rewrites an earlier entry "
+            "(generators avoid / canonicalise these). The unit correspondence drives the real Simplifier with real OpenCC over "
+            "generated text dictionaries. Not modelled: reverse-lookup and schema-list Compare overrides, lua/other filters, OpenCC "
+            "itself (API level only). "
             "Finding fixed in /repo: the uniquifier followed by single_char_filter (cangjie5) showed the same text twice.",
 }
